@@ -9,7 +9,7 @@
 (* by the specification's own operators (Machine!StepIn, WriteMem, ...); the  *)
 (* invariant Conforms compares it with the logged projection after every      *)
 (* event.  `why` names the first fields that differ.                          *)
-EXTENDS Machine, Json, IOUtils
+EXTENDS Run, Json, IOUtils
 
 Rec == ndJsonDeserialize(IOEnv.TRACE)
 N   == Len(Rec)
@@ -49,7 +49,7 @@ FromHeader(h) ==
    icount |-> p.icount, obs |-> <<>>, kbd |-> p.kbd, disp |-> p.disp,
    devs |-> [i \in 1..Len(r.devs) |-> DevOf(r.devs[i])], ports |-> PairsFn(r.ports),
    ireg |-> PairsFn(r.ireg), flags |-> FlagsOf(r.flags), alloca |-> AllocaSeq(r.alloca),
-   srdefs |-> <<>>, base |-> h]
+   srdefs |-> <<>>, base |-> h, bps |-> {}, pause |-> "Unsuccessful"]
 
 ---------------------------------------------------------------------------
 \* comparison of the specification state with a logged projection
@@ -79,9 +79,11 @@ FieldOK(n, s, p) ==
                          /\ \A a \in DOMAIN s.dirty :
                               (\A q \in SeqSet(p.memdiff) : q[1] # a) => Rd(s, a) = s.dirty[a]
     [] n = "alloca"   -> s.alloca = AllocaSeq(p.alloca)
+    [] n = "pause"    -> /\ B(p.hit_halt) = (s.pause \in {"Halt", "MCROff"})
+                         /\ B(p.hit_bp) = (s.pause = "Breakpoint")
 
 Fields == {"pc","psr","regs","ssp","mcr","prefetch","fno","frames","icount","obs","kbd","kbdie",
-           "disp","timers","mem","alloca"}
+           "disp","timers","mem","alloca","pause"}
 Mismatch(s, p) == { n \in Fields : ~FieldOK(n, s, p) }
 
 ---------------------------------------------------------------------------
@@ -129,7 +131,7 @@ ResetTo(s, draws) ==
             !.devs = [j \in 1..Len(s.devs) |-> IoResetDev(s.devs[j], draws)],
             !.kbd = IF \E j \in 1..Len(s.devs) : s.devs[j].k = "kbd" THEN <<>> ELSE s.kbd,
             !.disp = IF \E j \in 1..Len(s.devs) : s.devs[j].k = "disp" THEN <<>> ELSE s.disp,
-            !.memw = <<>>, !.dirty = [a \in DOMAIN s.memw |-> s.memw[a]]]
+            !.memw = <<>>, !.dirty = [a \in DOMAIN s.memw |-> s.memw[a]], !.bps = s.bps]
 ResetDrawsOK(s, draws) == \A j \in 1..Len(s.devs) : s.devs[j].k = "timer" =>
                              draws[s.devs[j].slot] >= s.devs[j].lo /\ draws[s.devs[j].slot] <= s.devs[j].hi
 
@@ -221,6 +223,18 @@ SetPortsFor(s, ports, id) ==
   [s EXCEPT !.ports = [a \in (DOMAIN @) \cup SeqSet(ports) |->
                           IF a \in SeqSet(ports) THEN id ELSE @[a]]]
 
+BpOf(b) == [k |-> b.k, a |-> b.a, c |-> [k |-> b.c.k, v |-> b.c.v]]
+EnvsOf(es) == [i \in 1..Len(es) |-> [lockK |-> B(es[i].lockK), lockD |-> B(es[i].lockD), ints |-> es[i].ints,
+                                      draws |-> es[i].draws, clr |-> B(es[i].clr)]]
+
+\* C13: a run-style call is repeated single steps up to the first stop condition
+ApplyRun(s, r) ==
+  LET envs == EnvsOf(r.envs)
+      x    == RunCall(Clean(s), r.kind, r.arg, envs)
+  IN [st |-> x.st,
+      bad |-> (IF x.out = r.res THEN {} ELSE {"res"})
+         \cup (IF x.n = r.nsteps THEN {} ELSE {"nsteps"})]
+
 RECURSIVE Pokes(_, _, _)
 Pokes(s, ps, k) == IF k > Len(ps) THEN s ELSE Pokes(Wr(s, ps[k][1], W(ps[k][2], ps[k][3])), ps, k + 1)
 
@@ -265,7 +279,8 @@ ApplyHost(s0, r) ==
          [st |-> ResetTo(s, r.draws),
           bad |-> (IF r.mcr_same = 1 /\ r.bp_before = r.bp_after THEN {} ELSE {"kept"})
              \cup (IF ResetDrawsOK(s, r.draws) THEN {} ELSE {"draw"})]
-    [] r.op = "addbp" -> ok(s)
+    [] r.op = "addbp" -> ok([s EXCEPT !.bps = @ \cup {BpOf(r.bp)}])
+    [] r.op = "rmbp"  -> ok([s EXCEPT !.bps = @ \ {BpOf(r.bp)}])
     [] r.op = "setmcr" -> ok([s EXCEPT !.mcr = B(r.v)])
     [] r.op = "timeren" ->
          ok([s EXCEPT !.devs = [j \in 1..Len(@) |-> IF @[j].k = "timer" /\ @[j].slot = r.slot
@@ -281,6 +296,7 @@ ApplyHost(s0, r) ==
 Apply(s, r) ==
   CASE r.ev = "Step" -> ApplyStep(s, r)
     [] r.ev = "Host" -> ApplyHost(s, r)
+    [] r.ev = "Run"  -> ApplyRun(s, r)
     [] r.ev = "End"  -> [st |-> Clean(s), bad |-> {}]
     [] r.ev = "Panic" -> [st |-> s, bad |-> {"panic"}]
     [] OTHER -> [st |-> s, bad |-> {"unknown-event"}]
@@ -296,7 +312,7 @@ Next == /\ why = {}
         /\ LET r == Rec[l + 1]
                x == Apply(st, r)
            IN /\ st' = x.st
-              /\ why' = x.bad \cup (IF r.ev \in {"Step", "Host", "End"} THEN Mismatch(x.st, r.proj) ELSE {})
+              /\ why' = x.bad \cup (IF r.ev \in {"Step", "Host", "End", "Run"} THEN Mismatch(x.st, r.proj) ELSE {})
         /\ l' = l + 1
 
 Spec == Init /\ [][Next]_vars
